@@ -370,59 +370,73 @@ def ai_message(prog, I, d):
 
 # ------------------------------------------------------------------ real binary with a local fake endpoint
 
+class FakeEndpoint:
+    """Loopback chat-completions endpoint: replies per block (matched on the condition in the user
+    message), `default` for everything else.  Use as a context manager; .port, .requests."""
+
+    def __init__(self, blocks, default=('err',)):
+        import http.server
+        import socketserver
+        reqs = self.requests = []
+
+        class H(http.server.BaseHTTPRequestHandler):
+            def log_message(self, *a):
+                pass
+
+            def do_POST(self):
+                n = int(self.headers.get('content-length', '0'))
+                body = self.rfile.read(n)
+                try:
+                    js = json.loads(body)
+                except ValueError:
+                    js = None
+                reqs.append(dict(path=self.path, auth=self.headers.get('authorization'), body=js))
+                user = ''
+                if js:
+                    for m in js.get('messages', []):
+                        if m.get('role') == 'user':
+                            user = m.get('content')
+                spec = tuple(default)
+                for b in blocks:
+                    if isinstance(user, str) and user.startswith('CONDITION:\n' + b['cond'] + '\n\n'):
+                        spec = tuple(b['reply'])
+                if spec[0] == 'err':
+                    self.send_response(400)
+                    out = b'{"error": {"message": "bad", "type": "invalid_request_error", "param": null, "code": null}}'
+                elif spec[0] == 'nochoices':
+                    self.send_response(200)
+                    out = json.dumps(dict(id='x', object='chat.completion', created=1, model='m', choices=[])).encode()
+                else:
+                    content = None if spec[0] == 'null' else spec[1]
+                    self.send_response(200)
+                    out = json.dumps(dict(id='x', object='chat.completion', created=1, model='m',
+                                          choices=[dict(index=0, finish_reason='stop', message=dict(role='assistant', content=content))])).encode()
+                self.send_header('content-type', 'application/json')
+                self.send_header('content-length', str(len(out)))
+                self.end_headers()
+                self.wfile.write(out)
+
+        class TS(socketserver.ThreadingMixIn, socketserver.TCPServer):
+            allow_reuse_address = True
+            daemon_threads = True
+        self.srv = TS(('127.0.0.1', 0), H)
+        self.port = self.srv.server_address[1]
+
+    def __enter__(self):
+        threading.Thread(target=self.srv.serve_forever, daemon=True).start()
+        return self
+
+    def __exit__(self, *a):
+        self.srv.shutdown()
+        self.srv.server_close()
+
+
 def run_real(binary, w):
     """Runs the real binary on the witness with a loopback fake endpoint; returns dict(code, diags, requests)."""
-    import http.server
-    import socketserver
-    reqs = []
-    blocks = w['blocks']
-
-    class H(http.server.BaseHTTPRequestHandler):
-        def log_message(self, *a):
-            pass
-
-        def do_POST(self):
-            n = int(self.headers.get('content-length', '0'))
-            body = self.rfile.read(n)
-            try:
-                js = json.loads(body)
-            except ValueError:
-                js = None
-            reqs.append(dict(path=self.path, auth=self.headers.get('authorization'), body=js))
-            user = ''
-            if js:
-                for m in js.get('messages', []):
-                    if m.get('role') == 'user':
-                        user = m.get('content')
-            spec = ('err',)
-            for b in blocks:
-                if isinstance(user, str) and user.startswith('CONDITION:\n' + b['cond'] + '\n\n'):
-                    spec = tuple(b['reply'])
-            if spec[0] == 'err':
-                self.send_response(400)
-                self.send_header('content-type', 'application/json')
-                out = b'{"error": {"message": "bad", "type": "invalid_request_error", "param": null, "code": null}}'
-            elif spec[0] == 'nochoices':
-                self.send_response(200)
-                self.send_header('content-type', 'application/json')
-                out = json.dumps(dict(id='x', object='chat.completion', created=1, model='m', choices=[])).encode()
-            else:
-                content = None if spec[0] == 'null' else spec[1]
-                self.send_response(200)
-                self.send_header('content-type', 'application/json')
-                out = json.dumps(dict(id='x', object='chat.completion', created=1, model='m',
-                                      choices=[dict(index=0, finish_reason='stop', message=dict(role='assistant', content=content))])).encode()
-            self.send_header('content-length', str(len(out)))
-            self.end_headers()
-            self.wfile.write(out)
-
-    class TS(socketserver.ThreadingMixIn, socketserver.TCPServer):
-        allow_reuse_address = True
-        daemon_threads = True
-    srv = TS(('127.0.0.1', 0), H)
-    port = srv.server_address[1]
-    th = threading.Thread(target=srv.serve_forever, daemon=True)
-    th.start()
+    ep = FakeEndpoint(w['blocks'])
+    ep.__enter__()
+    reqs = ep.requests
+    port = ep.port
     d = scratch_dir('c19')
     try:
         git_init(d)
@@ -441,8 +455,7 @@ def run_real(binary, w):
             env['BLOCKWATCH_AI_MODEL'] = w['env']['BLOCKWATCH_AI_MODEL']
         r = run_blockwatch(binary, d, ['**'], stdin=b'', env_extra=env, timeout=60)
     finally:
-        srv.shutdown()
-        srv.server_close()
+        ep.__exit__()
         shutil.rmtree(d, ignore_errors=True)
     diags = None
     if r['stderr'].strip().startswith('{'):
